@@ -107,5 +107,20 @@ kf("C09", "C09-const-array-element-store", "`out[0] = positions[1]` with positio
 kf("C09", "C09-cmpxchg-result-member-emit", "members of the atomicCompareExchangeWeak result used in a later statement are not covered by a dominating Emit",
    ["C09|emit-dominates|*|atomics_workgroup_barriers"])
 
+# ---------------------------------------------------------------- C12 (determinism, histories, schedules)
+kf("C12", "C12-backend-version-leak", "a reused spirv.Backend kept options.Version bumped to 1.4 by an earlier Compile (atomicOps-int64, workgroup-var-init): every later module was emitted as SPIR-V 1.4",
+   ["C12|backend-reuse|*|after corpus/atomicOps-int64", "C12|backend-reuse|*|after corpus/workgroup-var-init"], "fixed:cda026a")
+kf("C12", "C12-dxil-writes-global-binding", "dxil.Compile wrote a synthetic ResourceBinding into the caller's push-constant global (push-constants, extra): later SPIR-V/MSL output changed",
+   ["C12|mutates-module|dxil|corpus/push-constants|*", "C12|mutates-module|dxil|corpus/extra|*", "C12|history-dependent|*|after dxil*|corpus/push-constants", "C12|history-dependent|*|after dxil*|corpus/extra",
+    "C12|interleave|dxil mutates shared module: corpus/push-constants.wgsl:*"], "fixed:a1a8a9c")
+kf("C12", "C12-dxil-rewrites-nested-blocks", "dxil.Compile's IR passes rewrote nested statement blocks shared with the caller's module (debug-symbol-simple): a store disappeared and every backend's later output changed",
+   ["C12|mutates-module|dxil|corpus/debug-symbol-simple|*", "C12|history-dependent|*|after dxil*|corpus/debug-symbol-simple", "C12|interleave|dxil mutates shared module: corpus/debug-symbol-simple.wgsl:*"], "fixed:efb13fd")
+kf("C12", "C12-unused-let-map-order", "names of unused let bindings that alias one expression were taken from a map walk (registerUnusedLetBindings): lowered module and text output changed from run to run",
+   ["C12|maporder|map order changes output: lower: own/m4_unused_lets.wgsl:*"], "fixed:2ca6108")
+kf("C12", "C12-overrides-shallow-clone", "ir.CloneModuleForOverrides shares nested statement blocks (and pointer-held handles) with the source module, so ProcessOverrides on the clone rewrites the caller's module: later MSL/DXIL output of the same module changes or fails (\"invalid expression handle\"), and concurrent use races in remapBlockHandles. Not repaired: the repository's golden file overrides-ray-query.msl encodes the aliased behaviour, so a deep clone fails the existing test suite",
+   ["C12|mutates-module|overrides|overrides_nested_use|*", "C12|history-dependent|*|after overrides*|overrides_nested_use",
+    "C12|interleave|overrides mutates shared module: own/d3_overrides.wgsl:*", "C12|interleave|* output differs from solo run: H3: own/d3_overrides.wgsl: shared state written by overrides",
+    "C12|race|data race: write in ir.remapBlockHandles", "C12|race|free-running output differs from solo: *: H3: own/d3_overrides.wgsl"])
+
 json.dump(K, open("known_findings.json", "w"), indent=1)
 print(len(K), "entries")
